@@ -759,12 +759,17 @@ MOTIFS_EXT = [
     [["new_space", "-", "D", []], ["new_space", "D", "X", []], ["set_ref", "D.X", "t", 1], ["set_ref", "D.X", "s", 2],
      ["new_cells", "D", "f", F(3, 1, "f", "t", "X")], ["new_cells", "D", "g", F(11, 1, "f", "s", "X")],
      ["new_cells", "D", "h", F(3, 2, "h", "t", "X")], ["new_cells", "D", "k", F(12, 1, "h", "u")]],
-    # a caller in one space, through a cells of ANOTHER space that reads a reference of its own space by
-    # name; a second caller elsewhere reaches the same cells through an object-valued reference
+    # a caller in one space, through cells of ANOTHER space that read a reference of their own space by
+    # name; a second caller elsewhere reaches the reader through an object-valued reference.  With failing
+    # evaluations in the middle of the chains: g reads the reference by name and is PARTIAL (fails for the
+    # argument 2); h (same space) calls g; f (parent space) calls h through a path; k CATCHES the failure of
+    # f; the caller in B reaches g directly.  Whatever is uncached, the values computed through it for the
+    # arguments 0 and 1 precede a rolled-back evaluation through it
     [["new_space", "-", "C", []], ["new_space", "C", "X", []], ["set_ref", "C.X", "s", 2],
-     ["new_cells", "C.X", "g", F(2, 1, "g", "s")], ["new_cells", "C", "f", F(4, 1, "g", "r", "X")],
+     ["new_cells", "C.X", "g", F(14, 2, "g", "s")], ["new_cells", "C.X", "h", F(1, 1, "g")],
+     ["new_cells", "C", "f", F(4, 1, "h", "r", "X")], ["new_cells", "C", "k", F(8, 3, "f")],
      ["new_space", "-", "B", []], ["set_ref", "B", "t", ["obj", "C.X.g"], "absolute"],
-     ["new_cells", "B", "h", F(9, 1, "h", "t")]],
+     ["new_cells", "B", "f", F(9, 1, "f", "t")]],
     # the same shape with the middle cells uncached from the start (no other cells of its space is a
     # precedent of the callers), and a chain above the caller
     # (the middle cells is PARTIAL: its evaluation fails for the argument 2, after the successful ones)
@@ -773,15 +778,6 @@ MOTIFS_EXT = [
      ["new_cells", "C", "f", F(4, 1, "g", "r", "X")], ["new_cells", "C", "h", F(1, 2, "f")],
      ["new_space", "-", "B", []], ["set_ref", "B", "t", ["obj", "C.X.g"], "absolute"],
      ["new_cells", "B", "k", F(9, 1, "k", "t")]],
-    # failing evaluations in the middle of chains: g reads a reference of its space by name and fails for the
-    # argument 2; h (same space) calls g; f (parent space) calls h through a path; k CATCHES the failure of f;
-    # a caller in another space reaches g directly through an object-valued reference.  Whatever is uncached,
-    # the values computed through it for the arguments 0 and 1 precede a rolled-back evaluation through it
-    [["new_space", "-", "C", []], ["new_space", "C", "X", []], ["set_ref", "C.X", "s", 2],
-     ["new_cells", "C.X", "g", F(14, 2, "g", "s")], ["new_cells", "C.X", "h", F(1, 1, "g")],
-     ["new_cells", "C", "f", F(4, 1, "h", "r", "X")], ["new_cells", "C", "k", F(8, 3, "f")],
-     ["new_space", "-", "B", []], ["set_ref", "B", "t", ["obj", "C.X.g"], "absolute"],
-     ["new_cells", "B", "f", F(9, 1, "f", "t")]],
 ]
 
 
@@ -914,7 +910,7 @@ def ext_sequences(live, edits, rng, exhaustive, thorough=False, cap_pairs=24, ca
     return pairs + triples
 
 
-def input_sequences(live, edits, rng, thorough=False, cap=12):
+def input_sequences(live, edits, rng, thorough=False, cap=10):
     """the family "an INPUT, then the cells is redefined, evaluated again, then its namespace changes":
       [assign a value to one element of a cached cells;
        redefine that cells - a new formula (constant / reading a reference by name), a new name, the cache flag
